@@ -11,6 +11,10 @@ REGISTRY = {
     'C05': ('verif.p_mc', 'run_c05'),
     'C06': ('verif.p_mc', 'run_c06'),
     'C07': ('verif.p_mc', 'run_c07'),
+    'C08': ('verif.p_syntax', 'run_c08'),
+    'C09': ('verif.p_syntax', 'run_c09'),
+    'C10': ('verif.p_syntax', 'run_c10'),
+    'C11': ('verif.p_syntax', 'run_c11'),
     'C12': ('verif.p_graph', 'run_c12'),
     'C16': ('verif.p_bdd', 'run_c16'),
     'C17': ('verif.p_bdd', 'run_c17'),
